@@ -1,4 +1,4 @@
-import HexVerif.Lemmas.XcmpStage4
+import HexVerif.Lemmas.XcmpStage4All
 import HexVerif.Lemmas.XcmpV1
 /-!
   Whole programs with several procedures (class V2): the program context built from the
